@@ -8,7 +8,7 @@ Exit codes: 0 property held on everything explored (known findings are printed a
             2 undecided (tool limit, lost anchor, timeout, vacuity guard) — must not happen on the
               unchanged tree.
 """
-import json, os, re, shutil, subprocess, sys, tempfile, time, hashlib, glob, signal
+import json, os, re, shutil, subprocess, sys, tempfile, time, hashlib, glob, signal, textwrap
 
 ROOT = os.path.dirname(os.path.dirname(os.path.abspath(__file__)))
 REPO = os.environ.get("VERIF_REPO", "/repo")
@@ -521,7 +521,9 @@ def kani_playback(prop_id, scratch, harness, features=None, cbmc_args=None):
         new = open(pth).read()
         if new != old:
             # Kani inserts the generated unit tests right behind the harness function
-            found = re.findall(r"(?:///[^\n]*\n)*#\[test\]\nfn kani_concrete_playback_[A-Za-z0-9_]+\(\) \{.*?\n\}\n", new, re.S)
+            # (for macro-generated harnesses: inside the macro body, indented -- the test is taken
+            # out and appended to the end of the file instead)
+            found = [textwrap.dedent(t) for t in re.findall(r"[ \t]*#\[test\]\n[ \t]*fn kani_concrete_playback_[A-Za-z0-9_]+\(\) \{.*?\n[ \t]*\}\n", new, re.S)]
             if found:
                 file_rel = os.path.relpath(pth, scratch)
                 tests = found
